@@ -40,6 +40,14 @@ H void* h_po_setup(long cache, long maxjobs, long restart_mode) {
 static std::vector<Job>* g_file = nullptr; static std::vector<Job>* g_backup = nullptr;
 static long g_events[16]; static long g_nevents = 0;     // 1 = LOAD(file), 2 = WRITE(backup), 3 = WRITE(file)
 H void* h_jobs_new() { return new std::vector<Job>(); }
+H void h_jobs_add_full(void* v, long id, long status, long has_host, long hostch, long has_output, long has_error) {
+  std::vector<Job>* jobs = reinterpret_cast<std::vector<Job>*>(v);
+  votca::tools::Property input; input.add("input", "x");
+  jobs->push_back(Job(id, "t", input, static_cast<Job::JobStatus>(status)));
+  if (has_host) { std::string h(3, ':'); h[0] = (char)hostch; h[2] = '1'; jobs->back().setHost(h); }
+  if (has_output) jobs->back().setOutput("o");
+  if (has_error) { jobs->back().error_ = "e"; jobs->back().has_error_ = true; }
+}
 H void h_jobs_add(void* v, long id, long status, long has_host, long hostch) {
   std::vector<Job>* jobs = reinterpret_cast<std::vector<Job>*>(v);
   votca::tools::Property input;
